@@ -577,3 +577,7 @@ def run(ctx):
     ctx.guarded(r, C13.r5_axis_roles)
     r = ctx.rule("R4b", "nested transforms compose: importer frames are pushed and popped around their target", 7)
     ctx.guarded(r, C13.r3_frames)
+    # ExtrudeZ, LoftZ, RevolveY, the reflections and every Move / Scale / Rotate are `remap_xyz` / `remap_affine`
+    # wrappers: a shape has its documented geometry only if those builders wrap every tree they are given
+    r = ctx.rule("R4c", "the remap builders the shapes are made of wrap every input (no result short of the remap wrapper; affine remaps flatten as existing * new)", 5)
+    ctx.guarded(r, C13.r2_flatten)
